@@ -18,16 +18,19 @@ MANIFEST = {
             "(n, result tree, error, ctx.Left, ctx.LastErr) against the compiled model, plus a README shape oracle on the real results.",
     "note": "trusted: Lean kernel; hand-written model tied only by the differential run (generator quality bounds it); reflection serialiser of "
             "matcher values and the generator-tree/compiled-tree comparison; ListRetProc, panicking return procedures (Dyn errors) and the text "
-            "after 'but got' of messages are not modelled; scanner itself is C32's subject (tokens are taken from the real scanner).",
+            "after 'but got' of messages are not modelled; scanner itself is C32's subject (token kinds/literals/positions are taken from the real scanner); token EXTENTS are not trusted: the harness "
+            "computes end = pos + byte length of the token's source slice itself, sends those to the model and reports any difference to the real "
+            "Token.End() (key token-end-differs); Token.End's body is additionally fingerprinted by translator target tplend.",
     "technique": "Lean 4 proof (induction on fuel / loops) + differential correspondence of the compiled matcher tree vs real Compiler.Match",
 }
 
-RULE = ("fixed corpus (README examples, calculator, adjacency, commit cases, tpl/parser/_testdata grammars) + random grammars "
+RULE = ("conflict family (125 grammars (a \"q\") | ((b | c) \"r\") over IDENT/INT/STRING/keywords x 8 inputs: commit depends on the whole first set); fixed corpus (README examples, calculator, adjacency, commit cases, tpl/parser/_testdata grammars) + random grammars "
         "(1-3 rules, depth<=3 over token classes, operators, keywords, QSTRING/RAWSTRING, SPACE, \"\", sequence, choice, * + ? % ++, references, "
         "20% rules with a return procedure) x 3 inputs each: random derivations of the grammar with 45% near-miss edits "
-        "(drop/duplicate/replace/insert token, glue) and token soup; every match in a child process with timeout; "
-        "thorough adds an exhaustive enumeration: all 633 single-rule grammars x, op x, x OP y, op(x OP y) over atoms {\"a\", \"b\", INT}, "
-        "op in {*,+,?}, OP in {sequence, |, %, ++} against all 112 inputs of <= 3 words over {a, b, 1} (blank-separated and glued); "
+        "(drop/duplicate/replace/insert token, glue) and token soup; lexemes include non-ASCII identifiers, strings, chars (données, 日本語, \"é\", 'é') "
+        "and comments between tokens (also multi-byte, also at ++ junctions); every match in a child process with timeout; "
+        "thorough adds an exhaustive enumeration: all 633 single-rule grammars x, op x, x OP y, op(x OP y) over atoms {\"a\", IDENT, INT}, "
+        "op in {*,+,?}, OP in {sequence, |, %, ++} against all 112 inputs of <= 3 words over {a, é, 1} (blank-separated and glued); "
         "non-trivial = distinct (grammar, input) with >= 1 token")
 
 
@@ -36,7 +39,7 @@ def run(ctx):
         "return procedures are total functions of kind RetProc (no ListRetProc, no panics/Dyn errors)",
         "token list = what the real tpl/scanner yields for the input (Pos/End passed to the model)",
     ]
-    common.standard(ctx, "GopModel.Props.C29", "c29", 2400, 45000, RULE, driver=_tplm.DRIVER, canon=_tplm.canon,
+    common.standard(ctx, "GopModel.Props.C29", "c29", 2400, 45000, RULE, extract=("tplend",), driver=_tplm.DRIVER, canon=_tplm.canon,
                     post=lambda c, outdir, dis: _tplm.promote_core_mismatch(c, dis, "semantics", "c29"))
 
 
